@@ -4,6 +4,7 @@ import itertools, random
 import core
 from core import hx, nats
 from runner import Case
+from props import _d_hist as H
 
 THEOREMS = [
     "C09.findall_eq", "C09.findall_count_contract", "C09.findall_nodup", "C09.find_eq",
@@ -18,7 +19,7 @@ RULE = ("each of the 14 search functions from every start node of: all ordered t
         "bool / None attributes; separators / . \\ | - and ::), Node and BinaryNode with empty slots; queries drawn from "
         "existing names / full paths / string suffixes of paths / near-misses; conditions = id sets; min_count, max_count "
         "in 0..3; relative paths of 1-6 components over . .. * names and near-misses. Non-trivial = the tree has >=3 nodes; "
-        "distinct = distinct protocol lines")
+        "distinct = distinct protocol lines; plus HISTORIES: trees built node-by-node / list_to_tree / add_path_to_tree, a warm-up round of searches on every node, then edits (node.name = ..., sibling name swaps, re-parenting, detach + re-attach, children reordering, refused re-parentings), then the compared searches - the model receives only the final tree, so anything the code remembers from before the edits is a disagreement (every single rename / swap / move on all trees with <=4/5 nodes, random scripts of 1-6 edits)")
 EXHAUSTIVE = {
     "quick": "all ordered trees with <=4 nodes (deterministic labelling) x every start node x every relative path with <=3 "
              "components over {., .., *, a, b} (find_relative_paths); the same trees x every start x findall(all nodes) x all "
@@ -316,6 +317,80 @@ def _cases_for_tree(rng, base, starts, per, tags):
     return out
 
 
+def _hist_base(rng, init, edits, sep, build, binary=False):
+    warm = [([rng.randrange(64) for _ in range(3)] if rng.random() < 0.5 else []) for _ in edits]
+    fspec = H.bfinal(init, edits) if binary else H.final(init, edits)[0]
+    return {"spec": fspec, "binary": binary, "sep": sep,
+            "hist": {"init": init, "edits": edits, "warm": warm, "build": build,
+                     "sep0": sep if rng.random() < 0.7 else rng.choice(["/", "|", "."])}}
+
+
+def _gen_histories(rng, quick):
+    out = []
+    # systematic: every single rename / sibling swap / move on all small trees, then every full path,
+    # every child name (old and new) and the relative paths to every node
+    for shape in core.all_shapes_upto(4 if quick else 5):
+        init = det_label(shape)
+        anodes = H.from_spec(init)
+        n = len(anodes)
+        singles = []
+        for a in anodes:
+            taken = {s.name for s in a.parent.kids} if a.parent else set()
+            for nm in DET + ["c"]:
+                if nm != a.name and nm not in taken:
+                    singles.append(["rename", a.idx, nm])
+            if a.parent:
+                for b in a.parent.kids:
+                    if b.idx > a.idx:
+                        singles.append(["swapnames", a.idx, b.idx])
+                for p in anodes:
+                    if p is not a.parent and not H._in_subtree(a, p) and all(s.name != a.name for s in p.kids):
+                        singles.append(["move", a.idx, p.idx])
+        if quick and len(singles) > 12:
+            singles = rng.sample(singles, 12)
+        for e in singles:
+            for build in (("nodes", "list") if quick else ("nodes", "list", "addpath")):
+                base = _hist_base(rng, init, [e], "/", build)
+                base["hist"]["sep0"] = "/"
+                tags = ("hist-single", e[0], "build=" + build)
+                paths = paths_of(base)
+                old_paths = H.spec_paths(init)
+                names = sorted(set(names_of(base)) | {s.name for s in anodes})
+                b0 = dict(base, start=0)
+                for q in sorted(set("/".join(p) for p in paths) | set(old_paths)):
+                    out.append(mk("find_full_path", b0, tags, q=q))
+                    rel = q.split("/", 1)[1] if "/" in q else "."
+                    out.append(mk("find_relative_paths", b0, tags, q=rel))
+                for st in range(n):
+                    for nm in names:
+                        out.append(mk("find_child_by_name", dict(base, start=st), tags, name=nm))
+    # random histories, every function
+    for _ in range(40 if quick else 400):
+        size = rng.randint(3, 20)
+        shape = core.random_shape(rng, size)
+        sep = rng.choice(SEPS)
+        alphabet = [x for x in ALPHA if not any(ch in x for ch in sep + "/")]
+        init = rand_spec(rng, shape, alphabet)
+        if any(len({c[0] for c in s[2]}) != len(s[2]) for _a, s in core.spec_nodes(init)):
+            continue      # fan-out larger than the alphabet gave a clash; not a valid Node tree
+        edits = H.random_edits(rng, init, rng.randint(1, 6), alphabet + ["c"],
+                               kinds=("rename", "swapnames", "move", "reattach", "reorder", "failmove"))
+        build = rng.choice(["nodes", "list", "addpath"])
+        base = _hist_base(rng, init, edits, sep, build)
+        starts = [0] + [rng.randrange(size) for _ in range(2)]
+        out += _cases_for_tree(rng, base, starts, 1, ("hist-random", "build=" + build) + tuple(sorted({e[0] for e in edits})))
+    for _ in range(15 if quick else 150):
+        nb = rng.randint(2, 12)
+        init = rand_bspec(rng, core.random_bshape(rng, nb), DET + ["aa"])
+        edits = H.random_bedits(rng, init, rng.randint(1, 4), DET + ["aa", "c"])
+        if not edits:
+            continue
+        base = _hist_base(rng, init, edits, "/", "nodes", binary=True)
+        base["hist"]["sep0"] = "/"
+        out += _cases_for_tree(rng, base, [0, rng.randrange(nb)], 1, ("hist-binary",))
+    return out
+
+
 def gen(rng: random.Random, tier: str):
     cases = []
     quick = tier == "quick"
@@ -383,6 +458,8 @@ def gen(rng: random.Random, tier: str):
         base = {"spec": spec, "binary": False, "sep": sep}
         starts = [0] + [rng.randrange(size) for _ in range(2 if quick else 3)]
         cases += _cases_for_tree(rng, base, starts, 1, tags)
+    # ---- histories: build -> warm-up searches -> edits -> compared searches (the model sees the final tree only)
+    cases += _gen_histories(rng, quick)
     # ---- binary trees with holes
     bmax = 4 if quick else 5
     for nb in range(1, bmax + 1):
@@ -403,10 +480,85 @@ def nontrivial(case):
 
 
 # ---------------------------------------------------------------- implementation side
+def _warmup(objs, light=None):
+    """a round of searches and path reads on (some of) the nodes, results discarded: whatever the
+    real code remembers from it must not influence later answers"""
+    import bigtree
+    todo = objs if light is None else [objs[i % len(objs)] for i in light]
+    for n in todo:
+        for f in (lambda: bigtree.find_full_path(n, n.path_name),
+                  lambda: [bigtree.find_child_by_name(n, c.node_name) for c in n.children if c is not None],
+                  lambda: bigtree.find_relative_paths(n, "*"),
+                  lambda: bigtree.find_relative_paths(n, ".." + n.sep + "*"),
+                  lambda: bigtree.find_name(n.root, n.node_name),
+                  lambda: bigtree.find_paths(n.root, n.node_name),
+                  lambda: (n.depth, n.path_name, n.max_depth, n.sep)):
+            try:
+                f()
+            except Exception:  # noqa: BLE001 - ambiguity etc.; irrelevant here
+                pass
+
+
+def _build_hist(d):
+    """build the INITIAL tree (node by node / list_to_tree / add_path_to_tree), warm up, apply the
+    edits (with warm-ups in between), return the objects in the pre-order of the FINAL tree"""
+    import bigtree
+    from bigtree import Node, BinaryNode
+    h = d["hist"]
+    init = h["init"]
+    if d["binary"]:
+        objs = []
+        def go(s):
+            if s is None:
+                return None
+            n = BinaryNode(s[0])
+            objs.append(n)
+            ln = go(s[2])
+            rn = go(s[3])
+            n.children = [ln, rn]
+            return n
+        root = go(init)
+        for n, s in zip(objs, H.bnodes(init)):
+            n.set_attrs(dict(s[1]))
+        final_order = list(range(len(objs)))
+    else:
+        mode = h["build"]
+        if mode == "list":
+            root = bigtree.list_to_tree(H.spec_paths(init))
+            objs = H.collect_in_spec_order(root, init)
+        elif mode == "addpath":
+            root = Node(init[0])
+            for p in H.spec_paths(init)[1:]:
+                bigtree.add_path_to_tree(root, p)
+            objs = H.collect_in_spec_order(root, init)
+        else:
+            objs = []
+            def go(s, parent):
+                n = Node(s[0], parent=parent)
+                objs.append(n)
+                for c in s[2]:
+                    go(c, n)
+                return n
+            root = go(init, None)
+        for n, (_a, s) in zip(objs, core.spec_nodes(init)):
+            n.set_attrs(dict(s[1]))
+        _fspec, final_order = H.final(init, h["edits"])
+    root.sep = h.get("sep0", "/")
+    _warmup(objs)
+    for e, w in zip(h["edits"], h["warm"]):
+        H.apply_real(objs, e)
+        if w:
+            _warmup(objs, light=w)
+    root.sep = d["sep"]
+    return root, [objs[i] for i in final_order]
+
+
 def _build(d):
     """real objects; built under temporary unique names, then given the specified names (so that
     duplicated sibling names, reachable by renaming, can be set up)"""
     from bigtree import Node, BinaryNode
+    if d.get("hist"):
+        return _build_hist(d)
     nodes, meta = [], []
     if d["binary"]:
         def go(s):
@@ -689,7 +841,7 @@ def shrink(case):
         if d.get(key):
             nd = dict(d); nd[key] = val
             yield Case(_line(nd), nd, case.tags)
-    if d["binary"]:
+    if d["binary"] or d.get("hist"):
         return
     spec = d["spec"]
     nodes = core.spec_nodes(spec)
@@ -733,7 +885,7 @@ LEVEL_TEXT = ("Proof. Lean 4 theorems (C09.*) show, for every tree, start node, 
               "every start node: exhaustive relative paths (<=3/4 components over . .. * a b) and count contracts on all trees with <=4/5 "
               "nodes, all shapes <=5/6 nodes, random trees with repeated and suffix-related names (a, b, ab, ba, aa, 'a b', 'a.b'), "
               "attributes, separators / . \\ | - ::, duplicated sibling names, BinaryNode trees with holes (regression D8); a model-free "
-              "oracle (own traversal of .children, own path strings, breadth-wise file-system reading of relative paths) checks every case.")
+              "oracle (own traversal of .children, own path strings, breadth-wise file-system reading of relative paths) checks every case. History-built trees (build through constructors, warm-up searches, renames / re-parentings / reorderings, then the compared searches against the model of the final tree) make stale caches or indexes in the search path visible.")
 LEVEL_NOTE = ("Trusted: Lean kernel, axioms <= {propext, Classical.choice, Quot.sound} (audited each run), the hand-written model's "
               "correspondence to search.py as established by the tie (not proved), CPython. Conditions are functions of node identity; "
               "strings are character lists with Python's strip / split / endswith re-implemented in the model (multi-character separators "
